@@ -64,8 +64,10 @@ package reconciler
 //@   at call notify#1  assert locked: held(cur(old(h.w)).mu) && calls(Compose) == 1
 //@ end
 //@ func (*hdlr).Update
-//@   props C14
+//@   props C14 C08
 //@   requires state: h.w != nil && !held(h.w.mu)
+//@   at call field.upd#1 assert old-new: $arg0 == e.ObjectOld && $arg1 == e.ObjectNew
+//@   at call compose#1 assert new-obj: $arg2 == e.ObjectNew
 //@   ensures once:     calls(Compose) == 1 && calls(Notify) == 1
 //@   ensures one-section: calls(MuLock) == 1 && calls(MuUnlock) == 1
 //@   ensures released: !held(cur(old(h.w)).mu)
@@ -157,4 +159,12 @@ package reconciler
 //@   requires unlocked: r.watchers != nil && !held(r.watchers.mu)
 //@   ensures limited: calls(QAdd) == 0 && calls(QAddAfter) == 0 && calls(Enqueue) <= 1
 //@   at call AddRateLimited#1 assert full: $arg1.fullsync
+//@ end
+
+// C14 — links and change descriptions carry namespace/name: the namespace
+// prefix is applied last, also when the handler maps the object to another name
+//@ func (*hdlr).compose
+//@   props C14
+//@   at call appenddedup#1 assert namespaced: obj.GetNamespace() != "" ==> hasPrefix($arg1, obj.GetNamespace() + "/")
+//@   at call appenddedup#1 assert kind: $arg0 == ch.Links[h.res]
 //@ end
